@@ -689,10 +689,20 @@ pub enum Value {
 #[derive(Clone, Debug, PartialEq)]
 pub struct EvalErr(pub String);
 
+thread_local! {
+    /// the recorded deviation "negative zero is written -0" (known finding of C09, pinned by a test of
+    /// the repository): with this switch the reference reproduces it, so that a difference can be
+    /// attributed to exactly that deviation and to nothing else
+    pub static NEG_ZERO_AS_MINUS_ZERO: std::cell::Cell<bool> = std::cell::Cell::new(false);
+}
+
 pub fn num_to_string(n: f64) -> String {
     if n.is_nan() {
         "NaN".into()
     } else if n == 0.0 {
+        if n.is_sign_negative() && NEG_ZERO_AS_MINUS_ZERO.with(|c| c.get()) {
+            return "-0".into();
+        }
         "0".into()
     } else if n.is_infinite() {
         if n > 0.0 { "Infinity".into() } else { "-Infinity".into() }
